@@ -4,8 +4,8 @@ import engine_plugin as ep
 import c08shape as fs
 
 ID = "C08"
-LEAN_MODULES = ['HgVerif.Props.C08', 'HgVerif.Model.Engine', 'HgVerif.Model.Extracted'] + list(fs.LEAN_MODULES)
-THEOREMS = ['HgVerif.Feedback.feedback_delay', 'HgVerif.Feedback.never_same_cycle', 'HgVerif.Feedback.initial_value', 'HgVerif.Feedback.quiescent', 'HgVerif.Feedback.run_none_eq_shifted'] + list(fs.THEOREMS)
+LEAN_MODULES = ['HgVerif.Props.C08', 'HgVerif.Model.Engine', 'HgVerif.Model.Extracted', 'HgVerif.Model.TieC08'] + list(fs.LEAN_MODULES)
+THEOREMS = ['HgVerif.Tie.tie_fbDelayIsOneMinTd', 'HgVerif.Tie.tie_minTdTicks', 'HgVerif.Tie.tie_minStIsMinDtPlusMinTd', 'HgVerif.Feedback.feedback_delay', 'HgVerif.Feedback.never_same_cycle', 'HgVerif.Feedback.initial_value', 'HgVerif.Feedback.quiescent', 'HgVerif.Feedback.run_none_eq_shifted'] + list(fs.THEOREMS)
 CXX_TARGETS = ['hgv_engine'] + list(fs.CXX_TARGETS)
 USES_EXTRACT = True
 RULE = 'graphs with 1-2 feedback loops (with/without initial value, reader active or passive on the feedback, loops ticking together), random producer histories incl. writes on consecutive smallest steps; sinks on producer and reader; non-trivial = >=2 cycles with user code; distinct by program text'
